@@ -96,7 +96,13 @@ func (e *Exec) intBinop(op token.Token, t types.Type, x, y *Term, instr ssa.Inst
 	case token.MUL:
 		return e.B.BvBin(OBvMul, x, y)
 	case token.QUO, token.REM:
-		if e.Decide(e.B.Eq(y, e.B.BVConst(0, y.Sort.W))) {
+		if e.specCond != nil && !y.IsConst() {
+			// speculative arm of an if-conversion: the divisor must be non-zero
+			// whenever the arm's condition holds
+			if e.check(e.specCond, e.B.Eq(y, e.B.BVConst(0, y.Sort.W))) != Unsat {
+				panic(mergeAbort{"division may trap in speculative arm"})
+			}
+		} else if e.Decide(e.B.Eq(y, e.B.BVConst(0, y.Sort.W))) {
 			panic(e.runtimePanic("integer divide by zero"))
 		}
 		if signed {
